@@ -3,7 +3,7 @@ from .hist import run_history, U_C
 from .skeletons import U7, UN3
 
 LEVEL = 'model_checking'
-BUDGET_S = {'quick': 150, 'thorough': 1500}
+BUDGET_S = {'quick': 230, 'thorough': 1500}
 BOUNDS = {
     'quick': 'universe U7 (+ c for the cache directory): every universe path may initially be a foreign file or directory '
              '(also at target and former-output positions); foreign files planted by mutations inside created '
